@@ -410,11 +410,47 @@ def random_history(rng, groups, length, weights=None, lo=-1, hi=3):
     names = [n for n, (_f, _a, g) in OPS.items() if g in groups]
     w = [weights.get(n, 1.0) if weights else 1.0 for n in names]
     hist = []
+    used = []
     for k in range(length):
         n = rng.choices(names, weights=w)[0]
         ar = OPS[n][1]
-        hist.append((n,) + tuple(rng.randint(lo, hi) for _ in range(ar)))
+        args = []
+        for _ in range(ar):
+            # heavy aliasing: reuse a number that already occurred in this history (same vertex / link / option) most of the time
+            if used and rng.random() < 0.6:
+                a = rng.choice(used)
+            else:
+                a = rng.randint(lo, hi)
+            args.append(a)
+            used.append(a)
+        hist.append((n,) + tuple(args))
     return hist
+
+
+def systematic_histories(groups, reach, focus, cap=4000):
+    """small-scope exhaustive part: every 2-step history `constructor ; op reaching the focus functions` (and the
+    3-step ones with a second constructor in between) with arguments from a small domain"""
+    import itertools
+    names = [n for n, (_f, _a, g) in OPS.items() if g in groups]
+    ctors = [n for n in names if n in ("new_edge", "link_from_to", "new_link_multi", "new_vertex_unis", "new_universe",
+                                       "u_add_vertex", "set_laws", "new_universe_laws")]
+    tgt = [n for n in names if (reach.get(n, set()) & set(focus or ()))] or names
+    dom_small = (0, 1)
+    dom = (-1, 0, 1, 2)
+
+    def argsets(n, d):
+        ar = OPS[n][1]
+        return itertools.product(d, repeat=ar)
+    out = []
+    for c in ctors:
+        for ca in argsets(c, dom_small if OPS[c][1] > 2 else dom):
+            for t in tgt:
+                dd = dom if OPS[t][1] <= 3 else (0, 1, 2)
+                for ta in argsets(t, dd):
+                    out.append([(c,) + ca, (t,) + ta])
+                    if len(out) >= cap * 6:
+                        return out
+    return out
 
 
 def shrink(hist, fails):
@@ -430,7 +466,8 @@ def shrink(hist, fails):
     return cur
 
 
-def explore(pid, budget_s=30.0, seed=0, repo_root="/repo", only=None, max_len=6, stop_on_first=True, focus=None):
+def explore(pid, budget_s=30.0, seed=0, repo_root="/repo", only=None, max_len=6, stop_on_first=True, focus=None,
+            worker=0, nworkers=1):
     """random bounded exploration; returns dict(histories=..., calls_checked=..., failure=None|{...})"""
     t0 = time.time()
     mon, mods = fresh_world(repo_root, only)
@@ -451,8 +488,16 @@ def explore(pid, budget_s=30.0, seed=0, repo_root="/repo", only=None, max_len=6,
             if nm.startswith("new_edge") or nm == "link_from_to":
                 weights[nm] = max(weights[nm], 4.0)
     hist = []
+    sysq = []
+    if focus:
+        allsys = systematic_histories(groups, reach, focus)
+        random.Random(1234).shuffle(allsys)
+        sysq = allsys[worker::max(1, nworkers)][:1500]
     while time.time() - t0 < budget_s:
-        hist = random_history(rng, groups, rng.randint(1, max_len), weights)
+        if sysq and n % 2 == 0:
+            hist = sysq.pop()
+        else:
+            hist = random_history(rng, groups, rng.randint(1, max_len), weights)
         n += 1
         distinct.add(tuple(hist))
         r = run_history(hist, mon, mods, oracles)
